@@ -188,14 +188,15 @@ def sorted (t : PTree K) (order : List String) : PTree K :=
   (sortedGo (order ++ sortStrs (tips t)) t).2
 
 /-! ## `get_sub_tree` -/
-/-- params of a merged single-child edge: lengths are added only when both are present and
-the sum is truthy; otherwise the merged edge ends up with *no* params at all -/
-def mergeLen [Add K] [Zero K] [DecidableEq K] : Option K → Option K → Option K
-  | some a, some b => if a + b = 0 then none else some (a + b)
+/-- params of a merged single-child edge: the two lengths are added when both are present (a sum of
+0.0 is kept — repaired in /repo d2c7528e3; before, `if length:` dropped it); otherwise the merged
+edge ends up with *no* params at all -/
+def mergeLen [Add K] : Option K → Option K → Option K
+  | some a, some b => some (a + b)
   | _, _ => none
 
 mutual
-def subGo [Add K] [Zero K] [DecidableEq K] (inc : List String) (keepRoot tipsonly : Bool) :
+def subGo [Add K] (inc : List String) (keepRoot tipsonly : Bool) :
     PTree K → Option (PTree K)
   | .node n l cs =>
     if inc.contains n && (!tipsonly || cs.isEmpty) then some (.node n l cs)
@@ -204,7 +205,7 @@ def subGo [Add K] [Zero K] [DecidableEq K] (inc : List String) (keepRoot tipsonl
       | [] => none
       | [c] => if keepRoot then some (.node n l [c]) else some (.node c.name (mergeLen l c.len) c.children)
       | c :: c' :: cs' => some (.node n l (c :: c' :: cs'))
-def subL [Add K] [Zero K] [DecidableEq K] (inc : List String) (tipsonly : Bool) :
+def subL [Add K] (inc : List String) (tipsonly : Bool) :
     List (PTree K) → List (PTree K)
   | [] => []
   | c :: cs =>
@@ -213,7 +214,7 @@ def subL [Add K] [Zero K] [DecidableEq K] (inc : List String) (tipsonly : Bool) 
     | some r => r :: subL inc tipsonly cs
 end
 
-def getSubTree [Add K] [Zero K] [DecidableEq K] (t : PTree K) (names : List String)
+def getSubTree [Add K] (t : PTree K) (names : List String)
     (ignoreMissing keepRoot tipsonly : Bool) : Except TErr (PTree K) :=
   let known := if tipsonly then tips t else allNames t
   if !ignoreMissing && names.any (fun n => !known.contains n) then .error .valueError
